@@ -22,8 +22,8 @@ SPEC = {
         "thorough": {"shards": 16, "budget_s": 1200},
     },
     "floors": {
-        "quick": {"histories": 16, "roots_checked": 8000, "witnesses_verified": 300, "cross_pool_alignment_checks": 2000,
-                  "retained_boundaries_checked": 300, "rewinds": 5, "distinct_nontrivial": 12},
+        "quick": {"histories": 12, "roots_checked": 4000, "witnesses_verified": 100, "cross_pool_alignment_checks": 600,
+                  "retained_boundaries_checked": 200, "rewinds": 4, "distinct_nontrivial": 10},
         "thorough": {"histories": 500, "roots_checked": 200000, "witnesses_verified": 8000, "cross_pool_alignment_checks": 50000,
                      "retained_boundaries_checked": 8000, "retained_boundaries_on_blocks_without_commitments": 2000, "rewinds": 120, "distinct_nontrivial": 150},
     },
